@@ -225,7 +225,8 @@ def shard(shard, nshards, tier, seed):
         # cold scenarios (the lazy build races): one more preemption is allowed before the build lock is taken
         # (bootstrap entry point / ensure_compiled / prologue of compile), i.e. a thread that has decided to build
         # may be held there while the other one is preempted once anywhere
-        cold2 = not sc[2] and len(sc[3]) == 2 and (tier != "quick" or sc[0] == "S1:first-calls,same-args")
+        cold2 = not sc[2] and len(sc[3]) == 2 and (sc[0] == "S1:first-calls,same-args" or (
+            tier != "quick" and sc[0] in ("S8:first-calls,optional-parameter-omitted", "S4:dependent-first-calls", "S1:first-calls,different-args")))
         explore_scenario(sc, b, shard, nshards, acc, gate_extra=1 if cold2 and b == 1 else 0)
     if tier != "quick" and shard < 4:
         # validates the reduction of the scheduling points: bound 1 with every library line visible
